@@ -133,7 +133,7 @@ func validateW2Traces(c *hx.Ctx, tr []byte, ncases int) {
 
 // C08: LZMA2 writer, any call history; Flush yields a decodable prefix.
 func C08(c *hx.Ctx) {
-	c.Rule = "call histories over {Write(class),Flush,Close} generated exhaustively by TLC (CallHist) up to the length bound, crossed with Writer2Config boundary values; each replayed on the real Writer2, judged on sink bytes (ref + Reader2) after every Flush/Close and validated as a trace by TLC; non-trivial = history with a Flush after data or more than two chunks"
+	c.Rule = "call histories over {Write(class),Flush,Close} generated exhaustively by TLC (CallHist) up to the length bound, crossed with Writer2Config boundary values; each replayed on the real Writer2, judged on sink bytes (ref + Reader2) after every Flush/Close and validated as a trace by TLC; non-trivial = history with a Flush after data or more than two chunks; plus configurations with a ring above and a dictionary below the 64 KiB chunk limit, near-incompressible payloads, caller-owned configuration overwritten after NewWriter2, alternating sink kinds, TLC validation (TraceLzma) of the operations of sampled emitted streams"
 	c.Assumptions = []string{"TLC", "ref LZMA2 decoder (independent of /repo)", "chunk attribution to calls by sink offsets"}
 	c.DesignCheck(tlc.Opts{Module: "Lzma2Writer", Cfg: "Lzma2Writer_mc.cfg", Timeout: 3 * time.Minute}, []string{"BeginWrite", "BeginFlush", "BeginClose", "EmitChunk", "EndWrite", "EndFlush", "EndClose"})
 	configTable(c, "lzma2")
